@@ -85,6 +85,17 @@ check("C17", "c17", "model_checking",
       "stateless schedule exploration of the real code under loom (DPOR, preemption-bounded) + free-running Miri race detection",
       "DESIGN.md §4 C17")
 
+check("C03", "treap", "model_checking",
+      "Breadth-first search over states of up to 3 live treaps with at most N nodes where the EXPLORER chooses every priority rank (strictly between or tied with the live levels, also for insert_at, whose draw is predicted and the live priorities re-spaced around it), so every weak ordering of priorities = every tree shape is realised. Every action (new, merge of every ordered pair, split_at/split_by at every position, insert_at, remove_at, a lazy add-1 or assign-0 attached at the root, first/last/collect/size/root, merge with empty) in every reached state against vector models; invariants in every state: collect() on a copy = model, root aggregate = fold, every node's cached size and aggregate = its own subtree. Closure (histories of any length) for N <= 4 (quick) / 5 (thorough), all histories to depth 6 for N = 5 / 6.",
+      "Trusted: the harness item is a lawful TreapItem (value in Z3, size, word aggregate, affine pending tag); vector model. Bounded: more than N live nodes / 3 live treaps.",
+      "explicit-state BFS to closure over the real treap with explorer-chosen priorities, lockstep vector models",
+      "DESIGN.md §4 C03")
+check("C16", "treap", "model_checking",
+      "(a) Heap order along every parent-child edge, consistently in one direction, is an invariant checked in every state of the C03 exploration (every priority ordering incl. ties, closure for N <= 4, bounded depth above). (b) Height: a fixed menu of 8 adversarial deterministic histories (sorted appends, front insertion, middle / one-third insertion, split-and-swap rotations, append/remove alternation, two treaps merged, from_item+merge) through the REAL priority generator at 6 stream offsets up to 10^5 (quick) / 10^6 (thorough) elements, height probed at every doubling against 5*log2(n+1)+20 — labelled non-exhaustive.",
+      "Part (b) is an enumeration of a finite menu of deterministic executions, not of all histories; the probabilistic sentence of the property cannot be established by any bounded exploration and is used only to justify that a correct implementation never trips the bound on the menu.",
+      "explicit-state BFS (heap-order invariant) + directed long histories for the height bound",
+      "DESIGN.md §4 C16")
+
 PENDING = {
 }
 
